@@ -93,10 +93,11 @@ def Side (x : AnyObj) (r : List AnyObj) : Prop :=
   | .ip6 (.ip6 p) => (∀ h ∈ p.headers, Ip6.Ipv6.HdrParsed h) ∧ p.hdr + sizeOfStack r - 40 < 65536
   | .tr (.udp _) => True
   | .tr (.tcp t) => ∀ o ∈ t.opts, Transport.Tcp.Canon o
-  | .icmp (.icmp p) => p.Small ∧ p.hasExt = false ∧
+  | .icmp (.icmp p) => p.Small ∧ p.ext = Icmp.ExtS.default ∧       -- no extension structure (its version / reserved
       (Icmp.Icmp4.extAllowed p.type = true →
-        Icmp.ghostFree (p.lengthFor (Icmp.Icmp4.innerOf (sizeOfStack r)) % 256 * 4) (tailBytes r))
-  | .icmp (.icmp6 p) => p.Small ∧ p.hasExt = false ∧
+        Icmp.ghostFree (p.lengthFor (Icmp.Icmp4.innerOf (sizeOfStack r)) % 256 * 4) (tailBytes r))   -- fields are not on the wire)
+  | .icmp (.icmp6 p) => p.Small ∧ p.ext = Icmp.ExtS.default ∧
+      (p.type = 130 → p.useMldv2 = false → p.mlqm = Icmp.Icmp6.zeros 2 ∧ p.sources = []) ∧   -- MLDv1 query: no MLDv2 members
       p.BodyWire (p.unBytes (Icmp.Icmp4.innerOf (sizeOfStack r))) (!(Icmp.Icmp6.optsBytes p.opts ++ tailBytes r).isEmpty) ∧
       p.OptsWire (tailBytes r) ∧
       (Icmp.Icmp6.extAllowed p.type = true →
